@@ -178,7 +178,7 @@ PDF1 = {"exponential": lambda rng: [float(rng.uniform(1, 300))], "gamma": lambda
         "lognormal": lambda rng: [float(rng.uniform(0, 5)), float(rng.uniform(0.5, 2.5))]}
 
 
-def odfe_1d(cache, pdf, params, theta, exterior=True):
+def odfe_1d(cache, pdf, params, theta, exterior=True, tight=True):
     Nneg = len(cache.neg_gammas)
     S = np.asarray(cache.spectra[:Nneg], float)
     g = -np.asarray(cache.neg_gammas)            # positive, decreasing
@@ -192,8 +192,13 @@ def odfe_1d(cache, pdf, params, theta, exterior=True):
     if exterior:
         gmin, gmax = g[-1], g[0]
         brk = [p for p in np.logspace(-8, np.log10(gmin), 12)]
-        tails["neu"] = si.quad(lambda z: pdf(z, params), 0, gmin, epsabs=0, epsrel=1e-11, limit=400, points=brk[:-1])[0]
-        tails["del"] = si.quad(lambda z: pdf(z, params), gmax, np.inf, epsabs=0, epsrel=1e-11, limit=400)[0]
+        if tight:
+            tails["neu"] = si.quad(lambda z: pdf(z, params), 0, gmin, epsabs=0, epsrel=1e-11, limit=400, points=brk[:-1])[0]
+            tails["del"] = si.quad(lambda z: pdf(z, params), gmax, np.inf, epsabs=0, epsrel=1e-11, limit=400)[0]
+        else:
+            # as the code asks for them (scipy defaults: epsabs = epsrel = 1.49e-8)
+            tails["neu"] = si.quad(pdf, 0, gmin, args=(params,))[0]
+            tails["del"] = si.quad(pdf, gmax, np.inf, args=(params,))[0]
         fs = fs + np.asarray(cache.neu_spec.data) * tails["neu"] + S[0] * tails["del"]
     return theta * fs, tails
 
@@ -221,8 +226,12 @@ def run_cache1d(spec, rec, dadi, DFE):
             ok, fs = rec.noraise("integrate-returns", lambda: c.integrate(params, None, pdf, theta, None, exterior_int=ext), site="Cache1D.integrate", tags=tags)
             if ok:
                 ref, tails = odfe_1d(c, pdf, params, theta, ext)
-                # the code's own tail quadrature runs at scipy's default 1.5e-8 relative accuracy
-                tol = 1e-10 + 1e-6 * (tails["neu"] + tails["del"]) * float(np.max(np.abs(c.neu_spec.data))) * theta / max(float(np.max(np.abs(ref))), 1e-300)
+                # the code's own tail quadrature runs at scipy's defaults (1.49e-8 absolute *and* relative): what that request
+                # costs is measured by re-running the reference at those tolerances, as for the 2-D cache
+                tol = 1e-10
+                if ext:
+                    ref_loose, _ = odfe_1d(c, pdf, params, theta, True, tight=False)
+                    tol = 1e-10 + 3 * relerr(ref_loose, ref)
                 rec.close("cache1d-quadrature", relerr(np.asarray(fs.data), ref), tol, site="Cache1D.integrate", tags=dict(tags, exterior=ext))
         ok1, f1 = rec.noraise("integrate-returns", lambda: c.integrate(params, None, pdf, 1.0, None), site="Cache1D.integrate", tags=tags)
         ok2, f2 = rec.noraise("integrate-returns", lambda: c.integrate(params, None, pdf, theta, None), site="Cache1D.integrate", tags=tags)
